@@ -8,7 +8,8 @@ from typing import Callable, Iterator, Tuple
 
 from .gen import preset, PRESETS
 
-LIST_KEYS = ("ops", "scheds", "algs", "faults", "history", "variants", "texts", "calls", "starters")
+LIST_KEYS = ("ops", "scheds", "algs", "faults", "history", "variants", "texts", "calls", "starters", "parcons",
+             "others", "reads", "configs", "strings")
 
 
 def _walk(obj, path=()):
@@ -132,7 +133,7 @@ def candidates(case: dict) -> Iterator[Tuple[str, dict]]:
             if n > 3:
                 yield f"{path}: first half", _with(case, path, v[:n // 2])
                 yield f"{path}: second half", _with(case, path, v[n // 2:])
-            min_len = 0 if path[-1] in ("faults", "starters") else 1
+            min_len = 0 if path[-1] in ("faults", "starters", "others", "parcons", "strings", "texts") else 1
             if n > min_len:
                 for i in range(n - 1, -1, -1):
                     yield f"{path}: drop {i}", _with(case, path, v[:i] + v[i + 1:])
